@@ -367,6 +367,28 @@ Proof.
   destruct r; apply Hrel; auto; intros a E; discriminate.
 Qed.
 
+(* two locks taken in rank order, released in the reverse order by one finaliser *)
+Lemma Bal_bracket_in2 : forall A kp i R c1 x1 c2 x2 (body : M A) P,
+  R <= rank c1 -> rank c1 < rank c2 -> Bal kp i (S (rank c2)) body P ->
+  Bal kp i R (try_finally (acquire c1 x1 ;;; acquire c2 x2 ;;; body)
+                          (release c2 x2 ;;; release c1 x1)) P.
+Proof.
+  intros A kp i R c1 x1 c2 x2 body P HR H12 Hb h kn Hh. apply Br_try_finally. apply Br_mbind.
+  cbn [acquire Br]. split; [simpl; eapply lt_all_mono; eauto|].
+  intros a ->. cbn [Br ret next_h next_k]. apply Br_mbind. cbn [acquire Br].
+  split; [simpl; apply lt_all_cons; [exact H12 | eapply lt_all_mono; [|exact Hh]; lia]|].
+  intros a ->. cbn [Br ret next_h next_k].
+  eapply Br_mono.
+  { apply Hb. apply lt_all_cons; [lia|]. apply lt_all_cons; [lia|].
+    eapply lt_all_mono; [|exact Hh]. lia. }
+  cbn beta. intros r h' kn' (-> & H2 & H3).
+  apply Br_mbind. cbn [release Br]. split; [left; reflexivity|].
+  intros a ->. cbn [Br ret next_h next_k]. rewrite remove1_head.
+  split; [left; reflexivity|].
+  intros a ->. cbn [Br ret next_h next_k]. rewrite remove1_head.
+  destruct r; repeat split; auto; intros a E; discriminate.
+Qed.
+
 Lemma Bal_bracket_out : forall A kp i R cls x (body : M A) P,
   R <= rank cls -> Bal kp i (S (rank cls)) body P ->
   Bal kp i R (acquire cls x ;;; try_finally body (release cls x)) P.
@@ -514,6 +536,9 @@ Ltac bal :=
   | |- Bal _ _ _ (match ?x with _ => _ end) _ => destruct x; bal
   | |- Bal _ _ _ (try_finally (mbind (unit_op (Acquire LFile (IDoc ?a))) _) (funlock ?a)) _ =>
       apply Bal_bracket_file; [auto with bal | bal]
+  | |- Bal _ _ _ (try_finally (mbind (acquire ?c1 ?x1) (fun _ => mbind (acquire ?c2 ?x2) _))
+                              (mbind (release ?c2 ?x2) (fun _ => release ?c1 ?x1))) _ =>
+      apply Bal_bracket_in2; [auto with bal | simpl; lia | cbn [rank]; bal]
   | |- Bal _ _ _ (try_finally (mbind (acquire ?c ?x) _) (release ?c ?x)) _ =>
       apply Bal_bracket_in; [auto with bal | cbn [rank]; bal]
   | |- Bal _ _ _ (mbind (acquire ?c ?x) (fun _ => try_finally _ (release ?c ?x))) _ =>
@@ -795,13 +820,29 @@ Section API2.
     - repeat split; auto. discriminate.
   Qed.
 
+  (* rename a document for deletion; its disappearance in the meantime is tolerated *)
+  Lemma Bal_mark_one : forall kp R a, nontmp a ->
+    Bal kp i R (r <- catch (rename_for_deletion a) ;;
+                match r with
+                | Val d => ret [d]
+                | Exn EFileNotFound => ret []
+                | Exn e => raise e
+                end) (Forall nontmp).
+  Proof.
+    intros kp R a Ha.
+    eapply Bal_mbind; [apply Bal_catch; apply Bal_rename_for_deletion; exact Ha|].
+    intros [d|e] Hd; [apply Bal_ret; auto | destruct e; bal].
+  Qed.
+
   Lemma Bal_mark_docs : forall kp R l, R <= 3 -> Forall nontmp l ->
     Bal kp i R (mark_docs l) (Forall nontmp).
   Proof.
     induction l as [|a l IH]; intros HR Hl; simpl.
     - bal.
     - inversion Hl; subst.
-      eapply Bal_bracket_out_bind with (P1 := Forall nontmp); [simpl; lia | cbn [rank]; bal |].
+      eapply Bal_bracket_out_bind with (P1 := Forall nontmp); [simpl; lia | cbn [rank] |].
+      { eapply Bal_mbind; [apply Bal_probe|]. intros b _.
+        destruct b; [apply Bal_mark_one; assumption | bal]. }
       intros d Hd.
       eapply Bal_mbind; [apply IH; assumption|]. intros r Hr.
       apply Bal_ret. apply Forall_app. split; assumption.
